@@ -1314,14 +1314,18 @@ def must_pass(body, from_blocks, to_blocks, through_nodes=(), through_edges=(), 
 
 def describe_upvar(prog, closure_body, field):
     """Description, in the parent body, of the value captured as upvar `field` of a closure."""
+    # a closure defined in a helper that was inlined (hv/inline.py) is constructed in the caller: look there first, so that the
+    # captured value is described in terms of the caller's values rather than the helper's parameters
+    hosts = [prog.bodies[c] for c, cls in getattr(prog, "extra_closures", {}).items() if closure_body.path in cls and c in prog.bodies]
     parent = prog.bodies.get(closure_body.parent)
-    if parent is None:
-        return ("upvar", field, None)
-    for b, blk in enumerate(parent.blocks):
-        for s in blk["stmts"]:
-            rv = s.get("rv")
-            if rv and rv.get("k") == "agg" and rv.get("def") == closure_body.path and field < len(rv["ops"]):
-                return describe(prog, parent, rv["ops"][field])
+    if parent is not None:
+        hosts.append(parent)
+    for host in hosts:
+        for b, blk in enumerate(host.blocks):
+            for s in blk["stmts"]:
+                rv = s.get("rv")
+                if rv and rv.get("k") == "agg" and rv.get("def") == closure_body.path and field < len(rv["ops"]):
+                    return describe(prog, host, rv["ops"][field])
     return ("upvar", field, None)
 
 
